@@ -210,8 +210,11 @@ def startTimer (e : Sess) : Sess :=
   | .nil => { e with posts := e.posts + 1 }
   | t => { e with posts := e.posts + 1, refs := e.refs + 1, timer := if e.refs = 0 then .stopped else t }
 
-/-- Hand-over of the message to the server session (refused once `Close` has begun; `ok = false`:
-the transport could not open the stream for the answer and hands nothing over). -/
+/-- Hand-over of the message to the server session.  Once `Close` has begun no handler is started any
+more: the connection answers a new call itself (server closing) — and since the F26 repair of the write
+gate that answer, like the answer of a handler admitted before the close, *is* delivered, so the POST is
+answered and ends instead of hanging until the session is gone.  `ok = false`: the transport could not
+open the stream for the answer and hands nothing over. -/
 def deliver (ok : Bool) (k : Kind) (e : Sess) : Sess :=
   if e.closing || !ok then e
   else match k with
